@@ -194,6 +194,17 @@ def call_method(ex: Exec, base: SV, name: str, node: ast.Call) -> SV:
                 return call_repo(ex, f"{ci.module}:{ci.name}.{name}", args, kwargs, node)
             # dynamic dispatch: the static class may have subclasses overriding the method
             impls = _implementations(bt.cls, name)
+            base_q = f"{ci.module}:{ci.name}.{name}"
+            if base_q in ex.ver.contracts:
+                # behavioural subtyping: an overriding implementation without a contract of its
+                # own is used through the contract of the method it overrides (assumption listed)
+                merged: dict[str, list[str]] = {}
+                for cls_names, q in impls:
+                    tgt = q if q in ex.ver.contracts else base_q
+                    merged.setdefault(tgt, []).extend(cls_names)
+                if any(q != base_q and q not in ex.ver.contracts for _, q in impls):
+                    ex.note_assumption(f"implementations of {base_q.split(':')[1]} without their own contract satisfy the contract of the overridden method")
+                impls = [(v, k) for k, v in merged.items()]
             if len(impls) > 1:
                 conds = []
                 for cls_names, q in impls:
@@ -466,7 +477,8 @@ def _havoc_and_assume(ex: Exec, c, fi, env, call_heap, known, raising: str | Non
     res = ex.typed(res_t, rty)
     if "ensures" in c.clauses:
         env2 = dict(env)
-        env2["result"] = res
+        # the return value is `result`, unless the function has a parameter of that name (then `ret`)
+        env2["ret" if "result" in env else "result"] = res
         saved_fb = getattr(ex, "fresh_base", None)
         ex.fresh_base = fresh_base
         for _, b in ex.eval_clause(c.clauses["ensures"], env2, call_heap):
